@@ -131,6 +131,7 @@ class Interp:
         self._fid = itertools.count(1)
         self.site_oids = {}
         self._jc = {}
+        self.seg = {}        # StrV ident -> segment list (symbolic text: literals, zero-padded numbers, ...)
         self.opaque_callables = False
         self._leqmap = {}
         self._cell = itertools.count(1)
@@ -637,6 +638,16 @@ class Interp:
                     return v
             if c['ty']['k'] == 'tuple' and not c['ty']['elems']:
                 return UNIT
+            txt = c.get('text') or ''
+            if txt.startswith('b"') and c['ty']['k'] == 'ref':
+                # byte-string literal: an array of constant bytes behind a reference
+                try:
+                    import ast
+                    bs = ast.literal_eval(txt)
+                    arr = ('a', tuple(const_int(b, 'u8') for b in bs))
+                    return ('r', self.alloc(st, arr))
+                except Exception:
+                    pass
             if c['ty']['k'] == 'fndef':
                 return ('fn', c['ty']['id'])
             if c['ty']['k'] == 'closure':
